@@ -186,6 +186,7 @@ func cmdCheck(args []string) int {
 	var slow []map[string]any
 	var samples []any
 	var undecided []string
+	var unreachable []string
 	var fnames []string
 	notes := map[string]bool{}
 	trusted := map[string]bool{}
@@ -209,7 +210,10 @@ func cmdCheck(args []string) int {
 		for _, o := range r.Obls {
 			if o.Cover {
 				covers++
-				if o.Status == "vacuous" {
+				if o.Status == "vacuous" && !strings.Contains(o.Name, "/cover:entry") {
+					unreachable = append(unreachable, o.Name)
+				}
+				if o.Status == "vacuous" && strings.Contains(o.Name, "/cover:entry") {
 					addViol(o.Name, "vacuity guard: the assumptions at "+o.Name+" are contradictory (nothing is reachable)", o.Raw, o, false, nil)
 				}
 				continue
@@ -294,6 +298,7 @@ func cmdCheck(args []string) int {
 		"slow_obligations":     slow,
 		"samples":              samples,
 		"undecided":            undecided,
+		"unreachable_points":   unreachable,
 		"known_findings_open":  nKnown,
 		"unmodelled":           ns,
 		"integers":             "fixed-width bit-vectors (int/uint 64 bit); no mathematical-integer abstraction",
